@@ -173,12 +173,12 @@ Qed.
 Definition pa_numc (v : option pa_val) : bool :=
   match v with None | Some (PaNum _) => true | _ => false end.
 Definition pa_strc (v : option pa_val) : bool :=
-  match v with None | Some (PaStr _) | Some PaNull => true | _ => false end.
+  match v with None | Some (PaStr _) | Some PaNull | Some (PaBool _) => true | _ => false end.
 
 (* antisymmetry holds for all values, also across types *)
 Lemma pa_cmp_val_antisym : forall a b, pa_cmp_val b a = CompOpp (pa_cmp_val a b).
 Proof.
-  intros [[x|s|]|] [[y|t|]|]; cbv beta iota delta [pa_cmp_val]; try reflexivity;
+  intros [[x|s| |bx]|] [[y|t| |by']|]; cbv beta iota delta [pa_cmp_val]; try reflexivity;
     try apply pa_bytes_cmp_antisym; symmetry; apply Qcompare_antisym.
 Qed.
 
@@ -187,7 +187,7 @@ Definition pa_same_class (a b c : option pa_val) : Prop :=
   \/ (pa_strc a = true /\ pa_strc b = true /\ pa_strc c = true).
 
 Ltac pa_cases a b c :=
-  destruct a as [[?x|?s|]|]; destruct b as [[?y|?t|]|]; destruct c as [[?z|?u|]|];
+  destruct a as [[?x|?s| |?bx]|]; destruct b as [[?y|?t| |?bx]|]; destruct c as [[?z|?u| |?bx]|];
   cbv beta iota delta [pa_cmp_val pa_numc pa_strc pa_order_string] in *;
   try discriminate; try congruence.
 
